@@ -25,6 +25,9 @@ type verifSide struct {
 	idx       bool
 	idxUnique bool
 	idxDesc   bool
+	idxHash   bool // index attributes (group 5)
+	idxCmt    int  // 0 none, 1 "x", 2 "y"
+	idxPrefix int  // 0 none, 1 prefix 3, 2 prefix 5
 	pk        bool
 	fk        bool
 	fkDelete  int // 0 "", 1 NO ACTION, 2 CASCADE
@@ -48,6 +51,14 @@ func verifSideOf(tag string, group int) verifSide {
 		s.fk = verifChoice(tag+"_fk", 2) == 1
 		s.chk = verifChoice(tag+"_chk", 2) == 1
 		s.chkExpr = "x"
+		return s
+	}
+	if group == 5 {
+		// index attributes: the index is present on both sides, its attributes vary
+		s.idx = true
+		s.idxHash = verifBool(tag + "_idx_hash")
+		s.idxCmt = verifChoice(tag+"_idx_cmt", 3)
+		s.idxPrefix = verifChoice(tag+"_idx_prefix", 3)
 		return s
 	}
 	if group == 4 {
@@ -141,6 +152,15 @@ func (s verifSide) table(sch *schema.Schema, ref *schema.Table, perm bool) *sche
 	if s.idx {
 		i := schema.NewIndex("i").SetUnique(s.idxUnique)
 		i.AddParts(&schema.IndexPart{C: b, Desc: s.idxDesc})
+		if s.idxHash {
+			i.AddAttrs(&IndexType{T: IndexTypeHash})
+		}
+		if s.idxCmt != 0 {
+			i.SetComment([]string{"", "x", "y"}[s.idxCmt])
+		}
+		if s.idxPrefix != 0 {
+			i.Parts[0].AddAttrs(&SubPart{Len: []int{0, 3, 5}[s.idxPrefix]})
+		}
 		t.AddIndexes(i)
 	}
 	if s.pk {
@@ -205,6 +225,15 @@ func verifExpected(f, t verifSide) []verifWant {
 			k |= schema.ChangeUnique
 		}
 		if f.idxDesc != t.idxDesc {
+			k |= schema.ChangeParts
+		}
+		if f.idxHash != t.idxHash {
+			k |= schema.ChangeAttr
+		}
+		if f.idxCmt != t.idxCmt {
+			k |= schema.ChangeComment
+		}
+		if f.idxPrefix != t.idxPrefix {
 			k |= schema.ChangeParts
 		}
 		if k != 0 {
@@ -363,8 +392,9 @@ func verifC02(group int, withSkip bool) {
 	}
 }
 
-func VerifHarness_C02_mysql_col()   { verifC02(0, false) }
-func VerifHarness_C02_mysql_idx()   { verifC02(1, false) }
-func VerifHarness_C02_mysql_rest()  { verifC02(2, false) }
-func VerifHarness_C02_mysql_pairs() { verifC02(3, false) }
-func VerifHarness_C02_mysql_skip()  { verifC02(4, true) }
+func VerifHarness_C02_mysql_col()     { verifC02(0, false) }
+func VerifHarness_C02_mysql_idx()     { verifC02(1, false) }
+func VerifHarness_C02_mysql_rest()    { verifC02(2, false) }
+func VerifHarness_C02_mysql_pairs()   { verifC02(3, false) }
+func VerifHarness_C02_mysql_idxattr() { verifC02(5, false) }
+func VerifHarness_C02_mysql_skip()    { verifC02(4, true) }
